@@ -337,14 +337,18 @@ Close Scope Z_scope.
 Inductive hslot := HUnset | HVal (h : Z) | HErr.
 Record fdict := mkFD { f_items : dict; f_slot : hslot }.
 
+(* outcome of hash() on a returned object: value, FrozenHashError, or not taken
+   (a plain dict returned by dict.copy has no hash) *)
+Inductive hout := HOk (h : Z) | HRaise | HNA.
 Inductive fval :=
 | FNone | FTok (n : nat) | FHashV (h : Z)
-| FNew (items : dict) (same_obj equal : bool).   (* a FrozenDict returned by updated/copy/pickle *)
+| FNew (items : dict) (same_obj equal : bool) (h : hout).   (* object returned by updated/copy/pickle/... *)
 
 Inductive fd_op :=
 | FSetitem (k v : nat) | FDelitem (k : nat) | FUpdate (kvs : list kv) | FIor (kvs : list kv)
 | FSetdefault (k d : nat) | FPop (k : nat) (d : option nat) | FPopitem | FClear
-| FHash | FGet (k : nat) | FUpdated (kvs : list kv) | FCopy | FPickle.
+| FHash | FGet (k : nat) | FUpdated (kvs : list kv) | FCopy
+| FClone (plain : bool).      (* pickle round trip, deepcopy, FrozenDict(fd); plain: fd.copy() -> a plain dict *)
 
 (* dict.update on a plain copy *)
 Definition d_update (d : dict) (kvs : list kv) : dict :=
@@ -369,6 +373,9 @@ Section FrozenDict.
              (mkFD (f_items f) (HVal h), Ok (FHashV h))
     end.
 
+  Definition hash_out (items : dict) : hout :=
+    if existsb (fun p => unhashable (snd p)) items then HRaise else HOk (fs_hash (map item_hash items)).
+
   Definition fd_step (f : fdict) (op : fd_op) : fdict * res fval :=
     match op with
     | FSetitem _ _ | FDelitem _ | FUpdate _ | FIor _ | FSetdefault _ _ | FPop _ _ | FPopitem | FClear =>
@@ -377,9 +384,11 @@ Section FrozenDict.
     | FGet k => (f, match d_get (f_items f) k with Some v => Ok (FTok v) | None => Raise KeyError end)
     | FUpdated kvs =>
         let items' := d_update (f_items f) kvs in
-        (f, Ok (FNew items' false (dict_eqb_unordered items' (f_items f))))
-    | FCopy => (f, Ok (FNew (f_items f) true true))
-    | FPickle => (f, Ok (FNew (f_items f) false true))
+        (f, Ok (FNew items' false (dict_eqb_unordered items' (f_items f)) (hash_out items')))
+    | FCopy =>    (* copy.copy returns the object itself; taking its hash fills the _hash slot *)
+        (fst (fd_hash f), Ok (FNew (f_items f) true true (hash_out (f_items f))))
+    | FClone plain =>
+        (f, Ok (FNew (f_items f) false true (if plain then HNA else hash_out (f_items f))))
     end.
 End FrozenDict.
 
